@@ -605,8 +605,8 @@ def r5_globals(report, repo):
 
 
 def run(report, repo):
-  r1_fresh(report, repo)
-  r2_attr_copy(report, repo)
-  r3_per_run_state(report, repo)
-  r4_no_descriptor_writes(report, repo)
-  r5_globals(report, repo)
+  report.guard(r1_fresh, report, repo)
+  report.guard(r2_attr_copy, report, repo)
+  report.guard(r3_per_run_state, report, repo)
+  report.guard(r4_no_descriptor_writes, report, repo)
+  report.guard(r5_globals, report, repo)
